@@ -281,6 +281,21 @@ PROPS = {
             dict(test="TestC01Prop", kind="rapid", checks={Q: 12, T: 1500}, shards=16),
         ],
     ),
+    "C09": dict(
+        pkg="c09", level="exploration", prebuild="go run ./cmd/genregistry",
+        technique="property-based testing (rapid) over generated accessory databases (1..120 accessories built from every characteristic constructor) and value/ id-list actions against a live transport, verified reference controller with its own JSON/HTTP/framing as decoder; exact-value and response-shape oracle",
+        level_text=("Each case builds a bridge from characteristic constructors of the registry (window over all constructors, offset drawn), starts a transport, verifies the reference controller and performs 3..15 actions: the application sets generated in-bounds values and the controller reads them back through /characteristics (1..200 ids incl. non-existing, write-only and repeated ones) or /accessories; "
+                    "the controller PUTs values and the application's getter and remote-update callback are compared. Numbers are compared exactly (json.Number), strings code-point exact (quotes, escapes, HTML characters, U+2028, non-BMP, 2 kB), base64 payloads up to 5000 bytes. Every requested id must be answered once, in order, with a value or a non-zero status; a 207 answer must carry a status in every entry."),
+        level_note="Trusted: refctl's HTTP/chunked/frame reader and encoding/json with UseNumber on the controller side. Values stay inside declared bounds (clamping is C12's subject). Negative int32 values are not written remotely (no library characteristic declares a negative minimum).",
+        rule=("rapid cases: accessories in {1,2,4,11,41,120}, 1..6 characteristics per service, constructor window offset drawn; 3..15 actions from {set+GET one id, set several + GET many ids, set several + GET /accessories, PUT}. "
+              "Non-trivial: a value different from the default was set or written, or the id list contained a missing id, or the response spanned several frames. Distinct by (database shape, action history). coverage.extra counts how often each constructor's characteristic was set."),
+        assumptions=["application-side values are inside the characteristic's declared bounds"],
+        essential_classes={Q: ["format:bool/set", "format:float/set", "format:string/set", "format:tlv8/set", "format:uint8/put", "missing-id", "write-only-id", "accessories", "multi-frame-response"],
+                           T: ["format:bool/set", "format:float/set", "format:string/set", "format:tlv8/set", "format:uint8/put", "format:string/put", "missing-id", "write-only-id", "repeated-id", "accessories", "multi-frame-response", "response>100k", "accessories=120"]},
+        jobs=[
+            dict(test="TestC09Prop", kind="rapid", checks={Q: 60, T: 2500}, shards=16),
+        ],
+    ),
 }
 
 # reasons for properties not claimed yet (kept current while the framework is being built)
